@@ -45,13 +45,21 @@ class Check(core.CheckBase):
         wanted = case.get('index')
         for index in range(self.PER_BLOCK):
             kind = index % 5
-            if kind == 4:
-                pairs = [self.gen.certificate_plain_options(rng)]
-            elif kind == 3:
-                # the same subject key certified twice: each certificate has its own blob, hence its own fingerprints
-                pairs = self.gen.certificate_renewed(rng)
-            else:
-                pairs = [self.gen.kexinit(rng) if kind == 0 else self.gen.host_key_pair(rng) if kind == 1 else self.gen.certificate(rng)]
+            try:
+                if kind == 4:
+                    pairs = [self.gen.certificate_plain_options(rng)]
+                elif kind == 3:
+                    # the same subject key certified twice: each certificate has its own blob, hence its own fingerprints
+                    pairs = self.gen.certificate_renewed(rng)
+                else:
+                    pairs = [self.gen.kexinit(rng) if kind == 0 else self.gen.host_key_pair(rng) if kind == 1 else self.gen.certificate(rng)]
+            except Exception as e:  # pylint: disable=broad-except
+                # a public constructor refuses values the specifications allow: nothing to fingerprint
+                if wanted is None or index == wanted:
+                    found.append(self.violation('construct-raises|%s|%s' % (('kexinit', 'host-key', 'certificate', 'certificate', 'certificate')[kind],
+                                                                            type(e).__name__),
+                                                'building a specification-conformant message or key raised %r' % e, dict(case, index=index)))
+                continue
             if wanted is not None and index != wanted:
                 continue
             single = dict(case, index=index)
